@@ -11,6 +11,7 @@ import (
 
 	"deps.dev/util/resolve/dep"
 	"deps.dev/util/resolve/version"
+	"deps.dev/util/semver"
 )
 
 var c14Pkgs = [...]string{"p", "q", "r"}
@@ -126,22 +127,35 @@ func VerifC14History() {
 			vAssert(found, "an exact requirement matches the added version")
 		}
 		vAssert(len(vs) == count, "listing contains nothing but the added versions")
-		c14Order(sys, vs)
+		c14Order(sys, vs, vs)
 	}
 }
 
 // c14Order: a listing is in ascending ecosystem order; for npm, versions that do not parse come after those that
 // do, and the version tagged latest is moved last unless it is a prerelease while releases exist.
-func c14Order(sys System, vs []Version) {
+// all is the package's whole version list, which decides whether releases exist; vs is the listing judged (all of
+// it, or the part matched by a requirement).
+func c14Order(sys System, vs, all []Version) {
 	semsys := sys.Semver()
-	less := func(a, b string) bool {
-		_, ea := semsys.Parse(a)
-		_, eb := semsys.Parse(b)
-		if (ea == nil) != (eb == nil) {
-			return ea == nil
+	parsed := map[string]*semver.Version{}
+	for _, l := range [][]Version{vs, all} {
+		for _, v := range l {
+			if _, done := parsed[v.Version]; !done {
+				sv, err := semsys.Parse(v.Version)
+				if err != nil {
+					sv = nil
+				}
+				parsed[v.Version] = sv
+			}
 		}
-		if ea == nil {
-			if c := semsys.Compare(a, b); c != 0 {
+	}
+	less := func(a, b string) bool {
+		pa, pb := parsed[a], parsed[b]
+		if (pa != nil) != (pb != nil) {
+			return pa != nil
+		}
+		if pa != nil {
+			if c := pa.Compare(pb); c != 0 {
 				return c < 0
 			}
 		}
@@ -161,7 +175,9 @@ func c14Order(sys System, vs []Version) {
 			nlatest++
 			latest = i
 		}
-		if sv, err := semsys.Parse(v.Version); err != nil {
+	}
+	for _, v := range all {
+		if sv := parsed[v.Version]; sv == nil {
 			unparsable = true
 		} else if !sv.IsPrerelease() {
 			release = true
@@ -172,8 +188,7 @@ func c14Order(sys System, vs []Version) {
 	}
 	latestStays := false
 	if latest >= 0 {
-		sv, err := semsys.Parse(vs[latest].Version)
-		if err == nil && sv.IsPrerelease() {
+		if sv := parsed[vs[latest].Version]; sv != nil && sv.IsPrerelease() {
 			if !release && unparsable {
 				return // whether a version that does not parse counts as a release is not settled by the statement
 			}
